@@ -38,6 +38,21 @@ def ladder(p, dagger, M):
 def fermion_terms_matrix(terms, M):
     """terms: {((p, 1|0), ...): coeff} (openfermion convention: 1 = creation)."""
     d = 2 ** M
+    if M >= 8:
+        # sparse accumulation (each ladder operator has one entry per row): the dense product costs d^3 per factor
+        import scipy.sparse as sp
+        key = ("sparse", M)
+        if key not in _cache:
+            _cache[key] = {(p, dg): sp.csr_matrix(ladder(p, dg, M)) for p in range(M) for dg in (False, True)}
+        lad = _cache[key]
+        acc = sp.csr_matrix((d, d), dtype=complex)
+        eye = sp.identity(d, dtype=complex, format="csr")
+        for term, c in terms.items():
+            m = eye
+            for p, dag in term:
+                m = m @ lad[(p, bool(dag))]
+            acc = acc + complex(c) * m
+        return np.asarray(acc.todense())
     out = np.zeros((d, d), dtype=complex)
     for term, c in terms.items():
         m = np.eye(d, dtype=complex)
